@@ -14,9 +14,17 @@ VARIANT = "asan"
 RULE = ("search-path sequences (length 0..4) over a pool of directories (existing, missing, the same directory twice, ~-prefixed) x "
         "placements of a same-named regular file / directory / nothing in each x names (relative, with sub-directory, absolute, ~, "
         "~/x, ~user, ~user/x, ~nouser/x, empty); compared: strings returned by cfg_searchpath and cfg_tilde_expand, return code "
-        "and marker value of cfg_parse and include() through the same path; ASan watches the ~user branch; "
+        "and marker value of cfg_parse and include() through the same path - include() at top level, inside a single section, inside a section "
+        "nested in it and inside a titled multi section; ASan watches the ~user branch; "
         "non-trivial = >= 2 candidate directories, a ~ form, or a directory/regular clash")
-SCHEMA = [Opt("i", "int", 0, -1), Opt("inc", "int", 0, -1), Opt("include", "func", 0, None, "I")]
+def _body(extra=()):
+    return [Opt("i", "int", 0, -1), Opt("inc", "int", 0, -1), Opt("include", "func", 0, None, "I")] + list(extra)
+
+
+# include() is also declared inside a single section (created by cfg_init, before any search path exists), inside a
+# section nested in it, and inside a titled multi section (created by the parse)
+SCHEMA = _body([Opt("box", "sec", 0, None, "-", _body([Opt("inner", "sec", 0, None, "-", _body())])),
+                Opt("mb", "sec", gen.MULTI | gen.TITLE, None, "-", _body())])
 USERS = [u for u in ("root", "daemon", "nobody", "bin") if any(p.pw_name == u for p in pwd.getpwall())]
 
 
@@ -65,7 +73,10 @@ def generate(rng, tier):
         for t in ["~", "~/x", "~/", "~root", "~root/x/y", "~nouser/x", "~nouser", "plain", "", "a~b", "~~"] + ["~%s/f" % u for u in USERS]:
             lines.append("TE " + hx(t))
         lines += ["PF 0 " + hx("x.conf"), "D 0", "PF 0 " + hx(cdir + "/main.conf" if seq else "main.conf"), "D 0",
-                  "PB 0 " + hx("include(\"x.conf\")\n"), "D 0", "F 0"]
+                  "PB 0 " + hx("include(\"x.conf\")\n"), "D 0",
+                  "PB 0 " + hx("box { include(\"x.conf\") }\n"), "D 0",
+                  "PB 0 " + hx("box { inner { include(\"sub/y.conf\") include(\"x.conf\") } }\n"), "D 0",
+                  "PB 0 " + hx("mb t { include(\"x.conf\") }\n"), "D 0", "F 0"]
         cases.append(Case("s%d" % n, lines, {"seq": seq, "place": place}))
         n += 1
     return cases
